@@ -25,14 +25,20 @@ for d in sorted(os.listdir(root), key=lambda x: (x[0] != "C", x)):
         own += 1
     if fired_own or others:
         caught_any += 1
-    else:
+    elif b in det:
         misses.append(d)
-    need = (meta.get("needs_to_manifest") or "").replace("|", "\\|").replace("\n", " ")
+    if meta.get("also_breaks"):
+        b_all = ", ".join([b] + meta["also_breaks"])
+    else:
+        b_all = b
+    need = (("[written against " + b_all + "] ") if d.startswith("X") else "") + (meta.get("needs_to_manifest") or "").replace("|", "\\|").replace("\n", " ")
     need = re.sub(r"\s+", " ", need)
     if len(need) > 230:
         need = need[:227] + "..."
     if fired_own:
         cell = "**%s**: %s" % (b, ", ".join("`%s`" % r for r in o.get("rules", [])[:3]))
+    elif b not in det:
+        cell = "(not evaluated yet)"
     elif meta.get("not_reported_because"):
         cell = "not reported (%s)" % meta["not_reported_because"]
     else:
